@@ -12,6 +12,7 @@ from common import Failure, cZ, cbool, clist, copt, cstring
 import impl
 
 EXTRA_PROPS = ['Compose']  # composition theorems printed and counted with this property
+TRUSTED_EXTRA = ['harness/py2coq.py (Python->Gallina translator for the small pure functions named in DESIGN 12.8) and coq/Lib/PyVal.v: trusted by the SrcTie theorems only']
 EXPLANATION = ('Finite outcome tables proved equal to the documented table in Coq (atc exit code universally quantified); '
                'the model is re-tied on every run to tables regenerated from the running code and to end-to-end runs.')
 ASSUMPTIONS = ['INTERNAL_ERROR endings are covered by the tabulated reporters only (no text-only way to provoke one is known '
